@@ -8,13 +8,17 @@ import (
 	"github.com/titpetric/vuego/internal/helpers"
 )
 
+// noScripting: <noscript> content is parsed as markup, the way the clients it is written for
+// (the ones without scripting) read it - not as raw text, which would be escaped on output.
+var noScripting = html.ParseOptionEnableScripting(false)
+
 // ParseTemplateBytes parses template bytes into HTML nodes, handling both full documents and fragments.
 // If the content contains a full HTML document (</html> tag), it uses html.Parse.
 // Otherwise, it parses as a fragment using a cached body element.
 func ParseTemplateBytes(templateBytes []byte) ([]*html.Node, error) {
 	// Check if input template contains html/body
 	if isDocument(templateBytes) {
-		doc, err := html.Parse(bytes.NewReader(templateBytes))
+		doc, err := html.ParseWithOptions(bytes.NewReader(templateBytes), noScripting)
 		if err != nil {
 			return nil, err
 		}
@@ -27,7 +31,7 @@ func ParseTemplateBytes(templateBytes []byte) ([]*html.Node, error) {
 
 	// Parse the fragment using cached body element
 	body := helpers.GetBodyNode()
-	nodes, err := html.ParseFragment(bytes.NewReader(templateBytes), body)
+	nodes, err := html.ParseFragmentWithOptions(bytes.NewReader(templateBytes), body, noScripting)
 	if err != nil {
 		return nil, err
 	}
